@@ -69,7 +69,7 @@ func NetConn(ctx context.Context, c *Conn, msgType MessageType) net.Conn {
 			nc.writeCancel()
 			// The write may complete before it notices the cancellation
 			// so the connection is closed here as documented.
-			nc.c.close()
+			nc.closeConn()
 			return
 		}
 		defer nc.writeMu.unlock()
@@ -96,7 +96,7 @@ func NetConn(ctx context.Context, c *Conn, msgType MessageType) net.Conn {
 			nc.readCancel()
 			// The read may complete before it notices the cancellation
 			// so the connection is closed here as documented.
-			nc.c.close()
+			nc.closeConn()
 			return
 		}
 		defer nc.readMu.unlock()
